@@ -313,6 +313,15 @@ func runCafsBehaviour(cfg *cafsCfg, i int, line []byte, r *vutil.BehResult) {
 		if err != nil {
 			panic(err)
 		}
+		if (i+pi)%2 == 1 {
+			// the instance has a failed Put behind it: its source broke off in the middle of the first leaf
+			// (nothing was stored); what the instance does next must not depend on that
+			half := ref.Lambda / 2
+			if half < 1 {
+				half = 1
+			}
+			_, _ = fs.Put(context.Background(), &brokenSource{data: bytes.Repeat([]byte{0xEE}, half)})
+		}
 		before := w.Snapshot("blob")
 		// full-leaf keys, for scheduling
 		fullKey := map[int]string{}
@@ -875,4 +884,18 @@ func cafsReplay(args []string) error {
 	res.Extra["lambda"] = *lambda
 	res.Extra["style"] = *style
 	return res.Write(*out)
+}
+
+// brokenSource delivers its data and then fails (not with io.EOF).
+type brokenSource struct {
+	data []byte
+	done bool
+}
+
+func (b *brokenSource) Read(p []byte) (int, error) {
+	if b.done {
+		return 0, fmt.Errorf("verif: the source broke off")
+	}
+	b.done = true
+	return copy(p, b.data), nil
 }
